@@ -365,9 +365,7 @@ func checkBool1(c Case, r *vf.R) error {
 	results := make([]*canvas.Path, 5)
 	for op := 0; op < 5; op++ {
 		var R *canvas.Path
-		perr := vf.Try(opNames[op], func() {
-			vf.Watchdog("bool", c, 60*time.Second, func() { R = apply(op, P.path, Q.path) })
-		})
+		perr := guard(opNames[op], func() { R = apply(op, P.path, Q.path) })
 		if perr != nil {
 			return vf.Errorf("P.%s(Q) with P=%v Q=%v: %v", opNames[op], P.path, Q.path, perr)
 		}
@@ -402,7 +400,7 @@ func checkBool1(c Case, r *vf.R) error {
 	// Paths.X agrees with Path.X (same region)
 	for op := 0; op < 5; op++ {
 		var R2 *canvas.Path
-		if perr := vf.Try("Paths."+opNames[op], func() { R2 = applyPaths(op, P.path, Q.path) }); perr != nil {
+		if perr := guard("Paths."+opNames[op], func() { R2 = applyPaths(op, P.path, Q.path) }); perr != nil {
 			return vf.Errorf("Paths.%s with P=%v Q=%v: %v", opNames[op], P.path, Q.path, perr)
 		}
 		s2, derr := oracle.Decode(R2.Data())
@@ -430,7 +428,7 @@ func checkBool1(c Case, r *vf.R) error {
 		return oracle.Area(oracle.Sample(s, 1))
 	}
 	var sa, sb *canvas.Path
-	if perr := vf.Try("Settle", func() { sa, sb = P.path.Settle(canvas.NonZero), Q.path.Settle(canvas.NonZero) }); perr != nil {
+	if perr := guard("Settle", func() { sa, sb = P.path.Settle(canvas.NonZero), Q.path.Settle(canvas.NonZero) }); perr != nil {
 		return vf.Errorf("Settle of an operand: %v", perr)
 	}
 	aA, aB := area(sa), area(sb)
@@ -477,7 +475,7 @@ func checkBool1(c Case, r *vf.R) error {
 	}
 	for op := 0; op < 3; op++ {
 		var Rc, Rs *canvas.Path
-		if perr := vf.Try("commuted/symmetric "+opNames[op], func() {
+		if perr := guard("commuted/symmetric "+opNames[op], func() {
 			Rc = apply(op, Q.path, P.path)
 			Rs = apply(op, symPath(c.P), symPath(c.Q))
 		}); perr != nil {
@@ -516,3 +514,17 @@ func TestBool(t *testing.T) {
 }
 
 var _ = fmt.Sprint
+
+// guard runs a library call: a panic becomes an error (vf.Try) and so does a call that does not return within a minute
+// (the call is left running in its goroutine; whether that is a violation or falls into a recorded finding class is
+// decided from the input like for any other failure).
+func guard(name string, f func()) error {
+	var herr error
+	if perr := vf.Try(name, func() { herr = vf.WatchdogErr(60*time.Second, f) }); perr != nil {
+		return perr
+	}
+	if herr != nil {
+		return vf.Errorf("%s: %w", name, herr)
+	}
+	return nil
+}
